@@ -27,7 +27,7 @@ type H struct{}
 func (H) ID() string { return "C09" }
 
 // Version implements harness.Harness.
-func (H) Version() string { return "c09-v2" }
+func (H) Version() string { return "c09-v3" }
 
 // Runs implements harness.Harness.
 func (H) Runs(tier string) int {
@@ -48,12 +48,12 @@ func (H) Meta() harness.Meta {
 		RealComponents: []string{"amd/timing/cp.CommandProcessor", "cp/internal/dispatching.DispatcherImpl + roundRobin/greedy/partition algorithms", "cp/internal/resource.CUResourceImpl + CUResourcePoolImpl + resource masks", "amd/kernels.GridBuilder", "akita sim.Port"},
 		StubComponents: []string{"driver-side requester (scripted)", "compute units (finite declared resources, drawn completion delays/order)", "engine (SeededEngine)", "connections (FaultyConn)"},
 		Assumptions: []string{
-			"stub CUs report completions one work-group per message (as the timing CU does) or batch work-groups of one kernel only; batching work-groups of different kernels in one message (which only the emulation CU does) is excluded here and examined on the whole emulation platform",
+			"stub CUs report completions one work-group per message (as the timing CU does), batch work-groups of one kernel, or batch work-groups of different kernels in one message (as the emulation CU does)",
 			"every generated work-group fits into an empty CU of the run (a kernel that can never be placed is not a valid launch)",
 			"links are reliable and FIFO per pair",
 		},
 		FaultKinds:     []string{"tie_reorder", "delay", "cross_reorder", "backpressure", "slow_lower_level", "ooo_response", "config_swarm"},
-		ExpectedProbes: []string{"dispatcher_waited_for_resources", "overlapping_kernels", "cu_exactly_one_wg_fits", "batched_completion", "all_dispatchers_busy", "alg_greedy", "alg_partition", "alg_round_robin", "probe_kernel_ran"},
+		ExpectedProbes: []string{"dispatcher_waited_for_resources", "overlapping_kernels", "cu_exactly_one_wg_fits", "batched_completion", "all_dispatchers_busy", "alg_greedy", "alg_partition", "alg_round_robin", "probe_kernel_ran", "cross_kernel_batched_completion"},
 		ShrinkBudget:   400,
 	}
 }
@@ -73,6 +73,10 @@ type stubCU struct {
 
 	maxDelay int
 	batch    bool
+	// crossKernel: batch finished work-groups of different kernels into one
+	// message, as the emulation compute unit does
+	crossKernel  bool
+	crossBatched uint64
 
 	resident []*residentWG
 	// statistics
@@ -126,8 +130,12 @@ func (c *stubCU) Tick() bool {
 		if c.batch {
 			// also report other finished work-groups of the same kernel
 			for _, i := range ready {
-				if i != pick && c.resident[i].req.WorkGroup.Packet == first.req.WorkGroup.Packet &&
+				sameKernel := c.resident[i].req.WorkGroup.Packet == first.req.WorkGroup.Packet
+				if i != pick && (sameKernel || c.crossKernel) &&
 					c.resident[i].req.Src == first.req.Src && c.ch.Bool(1, 2, "cu.batch?") {
+					if !sameKernel {
+						c.crossBatched++
+					}
 					ids = append(ids, c.resident[i].req.ID)
 					drop[i] = true
 				}
@@ -165,6 +173,7 @@ type cuCfg struct {
 	LDS      int
 	MaxDelay int
 	Batch    bool
+	Cross    bool
 }
 
 type kernelCfg struct {
@@ -231,6 +240,7 @@ func (H) Run(ch *choice.Source, opt harness.Options) harness.Result {
 	}
 	for i := 0; i < nCU; i++ {
 		cu := cuCfg{SIMDs: 1 + ch.Intn(4, "simds"), MaxDelay: 1 + ch.Intn(60, "cu.maxdelay"), Batch: ch.Bool(1, 3, "cu.batch")}
+		cu.Cross = cu.Batch && ch.Bool(1, 2, "cu.cross")
 		for s := 0; s < cu.SIMDs; s++ {
 			cu.WfSlots = append(cu.WfSlots, 1+ch.Intn(10, "wfslots"))
 			// VGPR file: 64 lanes x (16..256 registers), multiple of 4 registers per lane
@@ -366,7 +376,7 @@ func (H) Run(ch *choice.Source, opt harness.Options) harness.Result {
 	b := cp.MakeBuilder().WithEngine(r.Eng).WithFreq(r.Freq)
 	var cus []*stubCU
 	for i, cc := range c.CUs {
-		cu := &stubCU{ch: ch, freq: r.Freq, wfPool: cc.WfSlots, vregs: cc.VRegs, sregs: cc.SRegs, lds: cc.LDS, maxDelay: cc.MaxDelay, batch: cc.Batch}
+		cu := &stubCU{ch: ch, freq: r.Freq, wfPool: cc.WfSlots, vregs: cc.VRegs, sregs: cc.SRegs, lds: cc.LDS, maxDelay: cc.MaxDelay, batch: cc.Batch, crossKernel: cc.Cross}
 		cu.TickingComponent = sim.NewTickingComponent(fmt.Sprintf("CU[%d]", i), r.Eng, r.Freq, cu)
 		cu.port = sim.NewPort(cu, 1+ch.Intn(8, "cu.inbuf"), 1+ch.Intn(8, "cu.outbuf"), fmt.Sprintf("CU[%d].Port", i))
 		cus = append(cus, cu)
@@ -693,6 +703,9 @@ func (H) Run(ch *choice.Source, opt harness.Options) harness.Result {
 		Faults: r.Faults(), Probes: probes,
 	}
 	res.Faults["config_swarm"] = 1
+	for _, cu := range cus {
+		probes["cross_kernel_batched_completion"] += cu.crossBatched
+	}
 	res.Nontrivial = rig.AnyFault(r.Faults()) && completedKernels > 0
 
 	if viol == nil {
